@@ -29,6 +29,8 @@ def make_param(N, x0, h):
 
 def make_fd(N, x0, h, order, boundary):
     prm = make_param(N, x0, h)
+    # mode name as run-time data (an equal string, not a literal's object)
+    boundary = "".join(list(boundary))
     fd = aurel.FiniteDifference(prm, boundary=boundary, fd_order=order,
                                 verbose=False)
     if (fd.Nx, fd.Ny, fd.Nz) != tuple(N):
